@@ -520,12 +520,20 @@ theorem honest_miEncodePayload_eq (H : Bytes → Bytes) (e0 e1 : Exchange) (rs :
                    respHeaders := add (add e0.respHeaders hContentEncoding e0.version.mice.name)
                      e0.version.mice.digestHeaderName (Mice.encode H e0.version.mice e0.payload rs).2 } := by
   unfold miEncodePayload at h
-  by_cases hg : get e0.respHeaders e0.version.mice.digestHeaderName ≠ []
-  · simp only [hg, ne_eq, not_false_eq_true, if_true] at h
+  by_cases hg : values e0.respHeaders e0.version.mice.digestHeaderName ≠ []
+  · rw [if_pos hg] at h
     cases h
-  · simp only [hg, if_false] at h
+  · rw [if_neg hg] at h
     injection h with h
     exact h.symm
+
+/-- since fix F14 `MiEncodePayload` only proceeds when the response has no entry at all under the digest name -/
+theorem honest_miEncodePayload_nodigest (H : Bytes → Bytes) (e0 e1 : Exchange) (rs : Nat) (h : miEncodePayload H e0 rs = some e1) :
+    values e0.respHeaders e0.version.mice.digestHeaderName = [] := by
+  unfold miEncodePayload at h
+  by_cases hg : values e0.respHeaders e0.version.mice.digestHeaderName ≠ []
+  · rw [if_pos hg] at h; cases h
+  · simpa using hg
 
 /-- the digest header the verifier reads back is exactly the one `MiEncodePayload` added, provided the
     response had no value under that name -/
@@ -654,44 +662,6 @@ theorem honest_comma_digest_unparsable (enc : Mice.Enc) (b : Bytes) :
     simp at this
   simp only [hne, ne_eq, not_false_eq_true, if_true]
 
-/-- the statement of (B) without `hnodigest` is false: with an empty digest value already present
-    (`Header.Get = ""`, so `MiEncodePayload` goes ahead) every honestly signed exchange is refused -/
-theorem honest_refused_if_empty_digest_value (env : Env) (e0 e1 e2 : Exchange) (rs : Nat)
-    (sig validityUrl certUrl certSha : Bytes) (date expires : Int) (t : GoTime.T)
-    (hval : values e0.respHeaders e0.version.mice.digestHeaderName = [[]])
-    (hmi : miEncodePayload env.H e0 rs = some e1)
-    (hsign : addSignatureHeader e1 sig validityUrl certUrl certSha date expires = some e2) :
-    Http.get e0.respHeaders e0.version.mice.digestHeaderName = [] ∧ verify env e2 t = none := by
-  refine ⟨by unfold Http.get; rw [hval]; rfl, ?_⟩
-  have he1 := honest_miEncodePayload_eq env.H e0 e1 rs hmi
-  obtain ⟨hd, _, he2⟩ := honest_addSignatureHeader_eq e1 e2 sig validityUrl certUrl certSha date expires hsign
-  have hv : e2.version = e0.version := by rw [he2, he1]
-  have hr : e2.respHeaders = add (add e0.respHeaders hContentEncoding e0.version.mice.name)
-      e0.version.mice.digestHeaderName (Mice.encode env.H e0.version.mice e0.payload rs).2 := by rw [he2, he1]
-  obtain ⟨b, hb⟩ := honest_digest_shape env.H e0.version.mice e0.payload rs
-  have hj : joined e2.respHeaders e0.version.mice.digestHeaderName = 44 :: (e0.version.mice.name ++ 61 :: b) := by
-    rw [hr]
-    unfold joined
-    rw [inv_values_add_same, inv_values_add_other _ _ _ _ (inv_digestName_ne _), hval, hb]
-    rfl
-  have hpay : ∀ s, verifyPayload env e2 s = none := by
-    intro s
-    unfold verifyPayload
-    simp only [hv, hj]
-    by_cases hi : s.integrity ≠ e0.version.mice.integrityIdentifier
-    · rw [if_pos hi]
-    · rw [if_neg hi, if_neg (by simp)]
-      unfold Mice.decodeAll Mice.newDecoder
-      rw [honest_comma_digest_unparsable]
-  cases hver : verify env e2 t with
-  | none => rfl
-  | some p =>
-    obtain ⟨_, _, _, _, s, _, ha⟩ := verify_some env e2 t p hver
-    have := ha.payload
-    rw [hpay s] at this
-    cases this
-
-
 /-- **(B)** MI-encode the payload, sign the serialized message with the certificate's key, add the
     Signature header: `Exchange.Verify` accepts the result and returns the original payload. -/
 theorem honest_verifies (env : Env) (hlen : ∀ x, (env.H x).length = 32)
@@ -735,5 +705,28 @@ theorem honest_verifies (env : Env) (hlen : ∀ x, (env.H x).length = 32)
   rw [hsig2, hparse]
   simp only [List.findSome?_cons, List.findSome?_nil]
   rw [(verifyOne_iff env e2 t _ e0.payload).mpr ⟨_, honest_extract _ _ _ _ _ _ _, hacc2⟩]
+
+/-- (B) on the repaired code: since fix F14 `MiEncodePayload` itself guarantees that no digest entry was
+    present, so no extra hypothesis about the original headers is needed. (Before the fix an exchange whose
+    digest header was present with an empty value was signed and then refused by every verifier.) -/
+theorem honest_verifies_f14 (env : Env) (hlen : ∀ x, (env.H x).length = 32)
+    (e0 e1 e2 : Exchange) (rs : Nat) (hrs : 1 ≤ rs) (hrs2 : rs ≤ 16384)
+    (sig validityUrl certUrl certBytes : Bytes) (main : CertChain.AugCert) (rest : List CertChain.AugCert)
+    (date expires : Int) (t : GoTime.T) (msg : Bytes)
+    (hmi : miEncodePayload env.H e0 rs = some e1)
+    (hmsg : signedMessage e1 (some (env.H main.cert)) validityUrl date expires = some msg)
+    (hsign : addSignatureHeader e1 sig validityUrl certUrl (env.H main.cert) date expires = some e2)
+    (hfetch : env.fetch certUrl = some certBytes) (hchain : CertChain.read env.parseOk certBytes = some (main :: rest))
+    (hkey : env.keyOk main.cert = true) (hsv : env.sigVerify main.cert msg sig = true)
+    (hurl : ∃ vu ru, env.url validityUrl = some vu ∧ env.url e0.uri = some ru ∧ sameOrigin vu ru = true)
+    (htime : timestampsOk
+        { label := kLabel, sig := sig, integrity := e0.version.mice.integrityIdentifier, certUrl := certUrl,
+          certSha256 := env.H main.cert, validityUrl := validityUrl, date := date, expires := expires } t = true)
+    (hint : -(2:Int)^63 ≤ date ∧ date < (2:Int)^63 ∧ -(2:Int)^63 ≤ expires ∧ expires < (2:Int)^63)
+    (hpolicy : headersOk e1 = true ∧ ((e0.version = .b1 ∨ e0.version = .b2) → (e0.method = mGET ∨ e0.method = mHEAD)) ∧
+       (e0.version = .b3 → isCacheable env e1 = true ∧ joined e1.respHeaders hContentType ≠ []))
+    : verify env e2 t = some e0.payload :=
+  honest_verifies env hlen e0 e1 e2 rs hrs hrs2 sig validityUrl certUrl certBytes main rest date expires t msg
+    hmi hmsg hsign hfetch hchain hkey hsv hurl htime hint hpolicy (honest_miEncodePayload_nodigest env.H e0 e1 rs hmi)
 
 end WebPkg.Sxg
